@@ -37,3 +37,14 @@ Proof.
     assert (~ (Ballot_number b < Ballot_number a \/ Ballot_number b = Ballot_number a /\ Ballot_node_id b < Ballot_node_id a)) by (intros X; specialize (Hba X); discriminate).
     unfold bal_of. f_equal; lia.
 Qed.
+
+(** [PaxosNode.quorum_size] as regenerated is the model's [quorum], and it is a strict
+    majority of the cluster (the node and its peers): two quorums always intersect. *)
+Lemma tie_paxos_quorum (n : PaxosNode) (c : pcfg) :
+  length (peers c) = length (PaxosNode__peers n) -> PaxosNode_quorum_size n = quorum c.
+Proof. intros H. unfold PaxosNode_quorum_size, quorum. rewrite H. reflexivity. Qed.
+
+Lemma paxos_quorum_majority (n : PaxosNode) :
+  let total := Z.of_nat (length (PaxosNode__peers n)) + 1 in
+  2 * PaxosNode_quorum_size n > total /\ PaxosNode_quorum_size n <= total.
+Proof. unfold PaxosNode_quorum_size. cbn zeta. split; lia. Qed.
